@@ -108,6 +108,9 @@ Qed.
 
 (* ---- events stored in the level's own pool (enqueue_event from outside) ---- *)
 Definition mkqm (s0:Z) (e:evt) : qitem := QEv e 0 s0 false.
+(* a cell the single-step variant process_event_pool(1) leaves behind: dispatched, marked, not yet removed *)
+Definition mhead (mk:option qitem) : list qitem := match mk with Some q => [q] | None => [] end.
+Definition is_mk (mk:option qitem) : Prop := match mk with Some q => is_marked q = true | None => True end.
 (* the sequence value s0 the stored occurrences carry stays apart from the next n values of the counter *)
 Definition apart (s0 c:Z) (n:nat) : Prop := forall j, j < n -> ((s0 - (c + Z.of_nat j)) mod MW <> 0)%Z.
 
@@ -920,7 +923,7 @@ Proof.
 Qed.
 
 (* the pool processed to the end: every stored event is one complete step, oldest first *)
-Lemma Lm_pool fuel' s0 : depth mc + 2 <= fuel' ->
+Lemma Lm_pool0 fuel' s0 : depth mc + 2 <= fuel' ->
   forall evs fl rn p, okmLq (map (mkqm s0) evs, None) mc rn -> processing rn = false -> act_run rn -> running rn = true ->
     2 * length evs + 1 <= fl -> apart s0 (curseq rn) (length evs) -> Forall (fun e => e_ty e <> EV_NONE) evs ->
     sim val (pool_loop cf parents contained mc children (mpei cf parents contained mc children fuel') fl 0 p 0) rn
@@ -978,26 +981,51 @@ Proof.
     rewrite Ha2 in E7. rewrite <- E7. rewrite !app_nil_r. rewrite Hi2. reflexivity.
 Qed.
 
-Lemma Lm_process_pool fuel' s0 evs fl rn : depth mc + 2 <= fuel' ->
-  okmLq (map (mkqm s0) evs, None) mc rn -> processing rn = false -> act_run rn -> running rn = true ->
-  2 * length evs + 1 <= fl -> apart s0 (curseq rn) (length evs) -> Forall (fun e => e_ty e <> EV_NONE) evs ->
+Lemma Lm_pool fuel' s0 mk : depth mc + 2 <= fuel' -> is_mk mk ->
+  forall evs fl rn p, okmLq (mhead mk ++ map (mkqm s0) evs, None) mc rn -> processing rn = false -> act_run rn -> running rn = true ->
+    2 * length evs + 2 <= fl -> apart s0 (curseq rn) (length evs) -> Forall (fun e => e_ty e <> EV_NONE) evs ->
+    sim val (pool_loop cf parents contained mc children (mpei cf parents contained mc children fuel') fl 0 p 0) rn
+        (fun _ rn' items => okm mc rn' /\ running rn' = true /\ (items, abs rn') = sp_drain pol mc val evs (abs rn)).
+Proof.
+  intros Hfuel Hmk evs fl rn p Hok Hp Har Hrun Hfl Hap Hall.
+  destruct mk as [q|]; cbn [mhead app] in Hok.
+  - destruct fl as [|fl]; [lia|]. cbn [pool_loop].
+    eapply sim_bind; [apply (sim_get val rn (fun a rn1 i1 => a = rn /\ rn1 = rn /\ i1 = [])); auto|].
+    cbn beta. intros a rn1 i1 (-> & -> & ->). rewrite (okmL_msgq _ _ Hok). cbn [fst nth_error]. cbn in Hmk. rewrite Hmk. cbn [remove_at].
+    eapply sim_bind; [apply (sim_put val (set_msgq rn (map (mkqm s0) evs)) rn (fun _ rn1 i1 => rn1 = set_msgq rn (map (mkqm s0) evs) /\ i1 = [])); auto|].
+    cbn beta. intros u1 rn1 i1 (-> & ->).
+    eapply sim_conseq.
+    { apply (Lm_pool0 fuel' s0 Hfuel evs fl (set_msgq rn (map (mkqm s0) evs)) p);
+        [eapply okmL_set_msgq; exact Hok | destruct rn; exact Hp | intros r Hr; destruct rn; exact (Har r Hr) | destruct rn; exact Hrun | lia
+        | replace (curseq (set_msgq rn (map (mkqm s0) evs))) with (curseq rn) by (destruct rn; reflexivity); exact Hap | exact Hall]. }
+    cbn beta. intros n rn' i H. rewrite abs_set_msgq in H. rewrite !app_nil_r. exact H.
+  - apply (Lm_pool0 fuel' s0 Hfuel evs fl rn p Hok Hp Har Hrun ltac:(lia) Hap Hall).
+Qed.
+
+Lemma Lm_process_pool fuel' s0 mk evs fl rn : depth mc + 2 <= fuel' -> is_mk mk ->
+  okmLq (mhead mk ++ map (mkqm s0) evs, None) mc rn -> processing rn = false -> act_run rn -> running rn = true ->
+  2 * length evs + 2 <= fl -> apart s0 (curseq rn) (length evs) -> Forall (fun e => e_ty e <> EV_NONE) evs ->
   sim val (process_event_pool cf parents contained mc children (mpei cf parents contained mc children fuel') fl 0) rn
       (fun _ rn' items => okm mc rn' /\ running rn' = true /\ (items, abs rn') = sp_drain pol mc val evs (abs rn)).
 Proof.
-  intros Hfuel Hok Hp Har Hrun Hfl Hap Hall. unfold process_event_pool.
+  intros Hfuel Hmk Hok Hp Har Hrun Hfl Hap Hall. unfold process_event_pool.
   eapply sim_bind; [apply (sim_get val rn (fun a rn1 i1 => a = rn /\ rn1 = rn /\ i1 = [])); auto|].
   cbn beta. intros a rn1 i1 (-> & -> & ->). pose proof (okmL_msgq _ _ Hok) as Hq. cbn [fst] in Hq.
-  destruct evs as [|e t].
-  - rewrite Hq. cbn [map]. apply sim_ret. split; [|split; [exact Hrun | reflexivity]].
+  assert (Loop : sim val (pool_loop cf parents contained mc children (mpei cf parents contained mc children fuel') fl 0 0 0) rn
+            (fun _ rn' items => okm mc rn' /\ running rn' = true /\ (items ++ [], abs rn') = sp_drain pol mc val evs (abs rn))).
+  { eapply sim_conseq; [apply (Lm_pool fuel' s0 mk Hfuel Hmk evs fl rn 0 Hok Hp Har Hrun Hfl Hap Hall)|].
+    cbn beta. intros n rn' i H. rewrite app_nil_r. exact H. }
+  destruct mk as [q|]; [|destruct evs as [|e t]].
+  - rewrite Hq. cbn [mhead app]. rewrite Hp. exact Loop.
+  - rewrite Hq. cbn [mhead app map]. apply sim_ret. split; [|split; [exact Hrun | reflexivity]].
     apply okm_unfold. split; [exact Hok|]. split; [exact Hp | intros _; exact Har].
-  - rewrite Hq. cbn [map]. rewrite Hp.
-    eapply sim_conseq; [apply (Lm_pool fuel' s0 Hfuel (e :: t) fl rn 0 Hok Hp Har Hrun Hfl Hap Hall)|]. cbn beta. intros n rn' i H. rewrite app_nil_r. exact H.
+  - rewrite Hq. cbn [mhead app map]. rewrite Hp. exact Loop.
 Qed.
 
 (* process_event from outside while events are stored: the event's own step, then every stored event *)
-Lemma Lm_pei_direct_q s0 evs fuel ev rn :
-  okmLq (map (mkqm s0) evs, None) mc rn -> processing rn = false -> act_run rn -> running rn = true ->
-  depth mc + 3 <= fuel -> 2 * length evs + 2 <= fuel -> e_ty ev <> EV_NONE -> Forall (fun e => e_ty e <> EV_NONE) evs ->
+Lemma Lm_pei_direct_q s0 mk evs fuel ev rn : is_mk mk ->
+  okmLq (mhead mk ++ map (mkqm s0) evs, None) mc rn -> processing rn = false -> act_run rn -> running rn = true ->
+  depth mc + 3 <= fuel -> 2 * length evs + 3 <= fuel -> e_ty ev <> EV_NONE -> Forall (fun e => e_ty e <> EV_NONE) evs ->
   apart s0 (wrap_mp11 (curseq rn + 1)) (length evs) ->
   sim val (mpei cf parents contained mc children fuel ev INFO_DIRECT) rn
       (fun code rn' items => okm mc rn' /\ running rn' = true /\
@@ -1005,7 +1033,7 @@ Lemma Lm_pei_direct_q s0 evs fuel ev rn :
           let '(i, c') := sp_drain pol mc val evs (o_conf o) in
           items = i ++ o_items o /\ abs rn' = c' /\ code_ok code (o_taken o) (o_rejected o))).
 Proof.
-  intros HokL Hproc Har Hrunning Hfuel Hfl Hev Hall Hap.
+  intros Hmk HokL Hproc Har Hrunning Hfuel Hfl Hev Hall Hap.
   destruct fuel as [|f]; [lia|]. cbn [mpei]. unfold mpei_body.
   eapply sim_bind; [apply (sim_get val rn (fun a rn1 i1 => a = rn /\ rn1 = rn /\ i1 = [])); auto|].
   cbn beta. intros a rn0 i0 (-> & -> & ->). rewrite mblocked_false, Hproc, defers_false.
@@ -1015,7 +1043,7 @@ Proof.
   cbn beta. intros u0 rn1 i1 (-> & ->).
   eapply sim_bind; [apply (sim_modify val _ _ (fun _ rn2 i2 => rn2 = set_processing (set_curseq rn c1) true /\ i2 = [])); auto|].
   cbn beta. intros u1 rn2 i2 (-> & ->).
-  set (l := map (mkqm s0) evs) in *.
+  set (l := mhead mk ++ map (mkqm s0) evs) in *.
   assert (Hl0 : lvlq (l, Some c1) (set_processing (set_curseq rn c1) true)).
   { split; [apply okmL_set_processing; eapply okmL_set_curseq_to; exact HokL|].
     intros r Hr. destruct rn; exact (Har r Hr). }
@@ -1027,7 +1055,7 @@ Proof.
   destruct Hl3 as (HokL3 & Har3).
   eapply sim_bind with (P := fun _ rn5 i5 => okm mc rn5 /\ running rn5 = true /\ (i5, abs rn5) = sp_drain pol mc val evs (abs rn3)).
   { eapply sim_bind.
-    { apply (Lm_process_pool f s0 evs f (set_processing rn3 false)); [lia | apply okmL_set_processing; eapply okmL_forget; exact HokL3
+    { apply (Lm_process_pool f s0 mk evs f (set_processing rn3 false)); [lia | exact Hmk | apply okmL_set_processing; eapply okmL_forget; exact HokL3
         | destruct rn3; reflexivity | intros r Hr; destruct rn3; exact (Har3 r Hr) | destruct rn3, rn; cbn in *; congruence | lia | | exact Hall].
       replace (curseq (set_processing rn3 false)) with c1 by (rewrite <- (okmL_seq _ _ HokL3); destruct rn3; reflexivity). exact Hap. }
     cbn beta. intros n5 rn5 i5 (H1 & H2 & H3). apply sim_ret. rewrite app_nil_l. rewrite abs_set_processing in H3. auto. }
@@ -1038,6 +1066,60 @@ Proof.
   destruct Hres as (H1 & H2 & H3). rewrite H1. rewrite <- H2.
   destruct (sp_drain pol mc val evs (abs rn3)) as [i c'] eqn:Ed. inversion E5; subst i5 c'.
   split; [reflexivity|]. split; [reflexivity | exact H3].
+Qed.
+
+(* process_event_pool(1): exactly the oldest stored occurrence, as one complete step; its cell stays behind, marked,
+   and the sequence counter is not advanced *)
+Lemma Lm_process_pool1 fuel' s0 mk e evs fl rn : depth mc + 2 <= fuel' -> is_mk mk ->
+  okmLq (mhead mk ++ map (mkqm s0) (e :: evs), None) mc rn -> processing rn = false -> act_run rn -> running rn = true ->
+  3 <= fl -> Z.eqb s0 (curseq rn) = false -> e_ty e <> EV_NONE ->
+  sim val (process_event_pool cf parents contained mc children (mpei cf parents contained mc children fuel') fl 1) rn
+      (fun _ rn' items => okmLq (QEv e 0 s0 true :: map (mkqm s0) evs, Some (curseq rn)) mc rn' /\ processing rn' = false /\
+         act_run rn' /\ running rn' = true /\
+         items = o_items (sp_process pol mc e val (abs rn)) /\ abs rn' = o_conf (sp_process pol mc e val (abs rn))).
+Proof.
+  intros Hfuel Hmk Hok Hp Har Hrun Hfl Hseq He. unfold process_event_pool.
+  eapply sim_bind; [apply (sim_get val rn (fun a rn1 i1 => a = rn /\ rn1 = rn /\ i1 = [])); auto|].
+  cbn beta. intros a rn1 i1 (-> & -> & ->). pose proof (okmL_msgq _ _ Hok) as Hq. cbn [fst] in Hq.
+  assert (Step : forall f rn0, okmLq (map (mkqm s0) (e :: evs), None) mc rn0 -> processing rn0 = false -> act_run rn0 -> running rn0 = true ->
+            curseq rn0 = curseq rn -> abs rn0 = abs rn ->
+            sim val (pool_loop cf parents contained mc children (mpei cf parents contained mc children fuel') (S f) 0 0 1) rn0
+              (fun _ rn' items => okmLq (QEv e 0 s0 true :: map (mkqm s0) evs, Some (curseq rn)) mc rn' /\ processing rn' = false /\
+                 act_run rn' /\ running rn' = true /\
+                 items = o_items (sp_process pol mc e val (abs rn)) /\ abs rn' = o_conf (sp_process pol mc e val (abs rn)))).
+  { intros f rn0 Hok0 Hp0 Har0 Hrun0 Hc0 Ha0. cbn [pool_loop].
+    eapply sim_bind; [apply (sim_get val rn0 (fun a rn1 i1 => a = rn0 /\ rn1 = rn0 /\ i1 = [])); auto|].
+    cbn beta. intros a rn1 i1 (-> & -> & ->). rewrite (okmL_msgq _ _ Hok0). cbn [fst map nth_error].
+    change (mkqm s0 e) with (QEv e 0 s0 false). cbn [is_marked]. cbv iota. rewrite Hc0, Hseq, defers_false. cbn [orb].
+    unfold mark_at. cbn [nth_error upd].
+    set (q1 := QEv e 0 s0 true :: map (mkqm s0) evs).
+    eapply sim_bind; [apply (sim_put val (set_msgq rn0 q1) rn0 (fun _ rn1 i1 => rn1 = set_msgq rn0 q1 /\ i1 = [])); auto|].
+    cbn beta. intros u1 rn1 i1 (-> & ->).
+    eapply sim_bind.
+    { apply (Lm_pei_pool (l:=q1) fuel' e (set_msgq rn0 q1)); [eapply okmL_set_msgq; exact Hok0 | destruct rn0; exact Hp0 | | destruct rn0; exact Hrun0 | exact Hfuel | exact He].
+      intros r Hr. destruct rn0; exact (Har0 r Hr). }
+    cbn beta. intros code rn2 i2 (Hok2 & Har2 & Hp2 & Hr2 & Hi2 & Ha2 & Hc2).
+    rewrite abs_set_msgq, Ha0 in Hi2, Ha2, Hc2.
+    destruct (code_not_deferred _ _ _ Hc2) as (Ed & Eb). rewrite Ed. cbn [negb andb Nat.eqb].
+    apply sim_ret. rewrite !app_nil_r.
+    replace (curseq (set_msgq rn0 q1)) with (curseq rn) in Hok2 by (rewrite <- Hc0; destruct rn0; reflexivity).
+    auto 10. }
+  destruct fl as [|fl]; [lia|].
+  destruct mk as [q|]; cbn [mhead app] in Hq, Hok; rewrite Hq.
+  - cbn [map]. rewrite Hp. cbn [pool_loop].
+    eapply sim_bind; [apply (sim_get val rn (fun a rn1 i1 => a = rn /\ rn1 = rn /\ i1 = [])); auto|].
+    cbn beta. intros a rn1 i1 (-> & -> & ->). rewrite Hq. cbn [nth_error]. cbn in Hmk. rewrite Hmk. cbn [remove_at].
+    set (l0 := mkqm s0 e :: map (mkqm s0) evs).
+    eapply sim_bind; [apply (sim_put val (set_msgq rn l0) rn (fun _ rn1 i1 => rn1 = set_msgq rn l0 /\ i1 = [])); auto|].
+    cbn beta. intros u1 rn1 i1 (-> & ->).
+    destruct fl as [|fl]; [lia|].
+    eapply sim_conseq.
+    { apply (Step fl (set_msgq rn l0)); [eapply okmL_set_msgq; exact Hok | destruct rn; exact Hp | intros r Hr; destruct rn; exact (Har r Hr)
+        | destruct rn; exact Hrun | destruct rn; reflexivity | apply abs_set_msgq]. }
+    cbn beta. intros n rn' i H. rewrite !app_nil_r. exact H.
+  - cbn [map]. rewrite Hp.
+    eapply sim_conseq; [apply (Step fl rn Hok Hp Har Hrun eq_refl eq_refl)|].
+    cbn beta. intros n rn' i H. rewrite !app_nil_r. exact H.
 Qed.
 
 (* ---- leaving and entering the whole level ---- *)
@@ -1305,13 +1387,15 @@ Qed.
 (* between operations: the pool holds the stored occurrences, oldest first, each with the sequence value just behind
    the counter; nothing is being processed *)
 Definition pool_of (rn:rnode) (pend:list evt) : list qitem := map (mkqm (wrap_mp11 (curseq rn - 1))) pend.
-Definition quietm (pend:list evt) (mc:machine) (rn:rnode) : Prop :=
-  okmLq (pool_of rn pend, None) mc rn /\ processing rn = false /\ (running rn = true -> act_run rn).
+(* mk: the cell process_event_pool(1) may have left behind (dispatched, marked, not yet removed) *)
+Definition quietm2 (mk:option qitem) (pend:list evt) (mc:machine) (rn:rnode) : Prop :=
+  okmLq (mhead mk ++ pool_of rn pend, None) mc rn /\ is_mk mk /\ processing rn = false /\ (running rn = true -> act_run rn).
+Definition quietm := quietm2 None.
 Lemma quietm_nil mc rn : okm mc rn -> quietm [] mc rn.
-Proof. intros H. apply okm_unfold in H. exact H. Qed.
+Proof. intros H. apply okm_unfold in H. destruct H as (A & B & C). unfold quietm, quietm2, pool_of. cbn [mhead map app]. split; [exact A|]. split; [exact I|]. split; assumption. Qed.
 
-Theorem mp11_process_event_q : forall mc, core mc -> forall pend fuel ev rn,
-  quietm pend mc rn -> running rn = true -> depth mc + 3 <= fuel -> 2 * length pend + 2 <= fuel -> (Z.of_nat fuel < MW)%Z ->
+Theorem mp11_process_event_q : forall mc, core mc -> forall mk pend fuel ev rn,
+  quietm2 mk pend mc rn -> running rn = true -> depth mc + 3 <= fuel -> 2 * length pend + 3 <= fuel -> (Z.of_nat fuel < MW)%Z ->
   e_ty ev <> EV_NONE -> Forall (fun e => e_ty e <> EV_NONE) pend ->
   sim val (co_pei (build cf parents false mc) fuel ev INFO_DIRECT) rn
       (fun code rn' items => okm mc rn' /\ running rn' = true /\
@@ -1319,20 +1403,20 @@ Theorem mp11_process_event_q : forall mc, core mc -> forall pend fuel ev rn,
           let '(i, c') := sp_drain pol mc val pend (o_conf o) in
           items = i ++ o_items o /\ abs rn' = c' /\ code_ok code (o_taken o) (o_rejected o))).
 Proof.
-  intros mc Hcore pend fuel ev rn (Hok & Hp & Har) Hrun Hfuel Hfl Hmw Hev Hall.
+  intros mc Hcore mk pend fuel ev rn (Hok & Hmk & Hp & Har) Hrun Hfuel Hfl Hmw Hev Hall.
   pose proof (mkids_hch mc Hcore) as Hch. rewrite build_mp11. cbn [mp11_ops co_pei].
   unfold pool_of in Hok.
   eapply Lm_pei_direct_q; eauto.
   apply apart_stored_next. lia.
 Qed.
 
-Theorem mp11_drain_q : forall mc, core mc -> forall pend fuel rn,
-  quietm pend mc rn -> running rn = true -> depth mc + 2 <= fuel -> 2 * length pend + 1 <= fuel -> (Z.of_nat fuel < MW)%Z ->
+Theorem mp11_drain_q : forall mc, core mc -> forall mk pend fuel rn,
+  quietm2 mk pend mc rn -> running rn = true -> depth mc + 2 <= fuel -> 2 * length pend + 2 <= fuel -> (Z.of_nat fuel < MW)%Z ->
   Forall (fun e => e_ty e <> EV_NONE) pend ->
   sim val (co_drain (build cf parents false mc) fuel 0) rn
       (fun _ rn' items => okm mc rn' /\ running rn' = true /\ (items, abs rn') = sp_drain pol mc val pend (abs rn)).
 Proof.
-  intros mc Hcore pend fuel rn (Hok & Hp & Har) Hrun Hfuel Hfl Hmw Hall.
+  intros mc Hcore mk pend fuel rn (Hok & Hmk & Hp & Har) Hrun Hfuel Hfl Hmw Hall.
   pose proof (mkids_hch mc Hcore) as Hch. rewrite build_mp11. cbn [mp11_ops co_drain].
   eapply sim_bind.
   { unfold pool_of in Hok. eapply Lm_process_pool; eauto.
@@ -1340,43 +1424,90 @@ Proof.
   cbn beta. intros n rn1 i1 H. apply sim_ret. rewrite app_nil_l. exact H.
 Qed.
 
-Theorem mp11_enqueue_q : forall mc pend e rn, quietm pend mc rn ->
-  sim val (co_enqueue (build cf parents false mc) e) rn
-      (fun _ rn' items => quietm (pend ++ [e]) mc rn' /\ running rn' = running rn /\ items = [] /\ abs rn' = abs rn).
+(* process_event_pool(1): the oldest stored occurrence as one complete step, the others stay *)
+Theorem mp11_drain1_q : forall mc, core mc -> forall mk e pend fuel rn,
+  quietm2 mk (e :: pend) mc rn -> running rn = true -> depth mc + 2 <= fuel -> 3 <= fuel -> e_ty e <> EV_NONE ->
+  sim val (co_drain (build cf parents false mc) fuel 1) rn
+      (fun _ rn' items => (exists mk', quietm2 mk' pend mc rn') /\ running rn' = true /\
+         items = o_items (sp_process pol mc e val (abs rn)) /\ abs rn' = o_conf (sp_process pol mc e val (abs rn))).
 Proof.
-  intros mc pend e rn (Hok & Hp & Har). rewrite build_mp11. cbn [mp11_ops co_enqueue]. unfold mcb_enqueue, push_deferred.
+  intros mc Hcore mk e pend fuel rn (Hok & Hmk & Hp & Har) Hrun Hfuel Hfl He.
+  pose proof (mkids_hch mc Hcore) as Hch. rewrite build_mp11. cbn [mp11_ops co_drain].
+  eapply sim_bind.
+  { unfold pool_of in Hok. eapply Lm_process_pool1; eauto.
+    apply (apart_now _ _ 0). apply apart_stored. rewrite MW_val. lia. }
+  cbn beta. intros n rn1 i1 (Hok1 & Hp1 & Har1 & Hr1 & Hi1 & Ha1). apply sim_ret. rewrite app_nil_l.
+  split; [|split; [exact Hr1 | split; [exact Hi1 | exact Ha1]]].
+  exists (Some (QEv e 0 (wrap_mp11 (curseq rn - 1)) true)). unfold quietm2, pool_of.
+  rewrite (okmL_seq _ _ Hok1). cbn [mhead app]. split; [eapply okmL_forget; exact Hok1|].
+  split; [reflexivity|]. split; [exact Hp1 | intros _; exact Har1].
+Qed.
+
+(* process_event_pool(1) with nothing stored: at most the cell left behind is removed *)
+Theorem mp11_drain1_nil : forall mc mk fuel rn, quietm2 mk [] mc rn -> running rn = true -> 2 <= fuel ->
+  sim val (co_drain (build cf parents false mc) fuel 1) rn
+      (fun _ rn' items => quietm2 None [] mc rn' /\ running rn' = true /\ items = [] /\ abs rn' = abs rn).
+Proof.
+  intros mc mk fuel rn (Hok & Hmk & Hp & Har) Hrun Hfl. rewrite build_mp11. cbn [mp11_ops co_drain].
+  unfold process_event_pool.
+  eapply sim_bind with (P := fun _ rn' items => quietm2 None [] mc rn' /\ running rn' = true /\ items = [] /\ abs rn' = abs rn).
+  2:{ cbn beta. intros n rn1 i1 H. apply sim_ret. rewrite app_nil_l. exact H. }
+  eapply sim_bind; [apply (sim_get val rn (fun a rn1 i1 => a = rn /\ rn1 = rn /\ i1 = [])); auto|].
+  cbn beta. intros a rn1 i1 (-> & -> & ->). pose proof (okmL_msgq _ _ Hok) as Hq. cbn [fst pool_of map] in Hq. rewrite app_nil_r in Hq.
+  unfold pool_of in Hok. cbn [map] in Hok. rewrite app_nil_r in Hok.
+  destruct mk as [q|]; cbn [mhead] in Hq, Hok; rewrite Hq.
+  - rewrite Hp. destruct fuel as [|[|f]]; try lia. cbn [pool_loop].
+    eapply sim_bind; [apply (sim_get val rn (fun a rn1 i1 => a = rn /\ rn1 = rn /\ i1 = [])); auto|].
+    cbn beta. intros a rn1 i1 (-> & -> & ->). rewrite Hq. cbn [nth_error]. cbn in Hmk. rewrite Hmk. cbn [remove_at].
+    eapply sim_bind; [apply (sim_put val (set_msgq rn []) rn (fun _ rn1 i1 => rn1 = set_msgq rn [] /\ i1 = [])); auto|].
+    cbn beta. intros u1 rn1 i1 (-> & ->).
+    eapply sim_bind; [apply (sim_get val _ (fun a rn1 i1 => a = set_msgq rn [] /\ rn1 = a /\ i1 = [])); auto|].
+    cbn beta. intros a rn1 i1 (-> & -> & ->).
+    replace (msgq (set_msgq rn [])) with (@nil qitem) by (destruct rn; reflexivity). cbn [nth_error].
+    apply sim_ret. split; [|split; [destruct rn; exact Hrun | split; [reflexivity | apply abs_set_msgq]]].
+    unfold quietm2, pool_of. cbn [mhead map app]. split; [eapply okmL_set_msgq; exact Hok|]. split; [exact I|].
+    split; [destruct rn; exact Hp | destruct rn; exact Har].
+  - apply sim_ret. split; [|auto]. unfold quietm2, pool_of. cbn [mhead map app]. auto.
+Qed.
+
+Theorem mp11_enqueue_q : forall mc mk pend e rn, quietm2 mk pend mc rn ->
+  sim val (co_enqueue (build cf parents false mc) e) rn
+      (fun _ rn' items => quietm2 mk (pend ++ [e]) mc rn' /\ running rn' = running rn /\ items = [] /\ abs rn' = abs rn).
+Proof.
+  intros mc mk pend e rn (Hok & Hmk & Hp & Har). rewrite build_mp11. cbn [mp11_ops co_enqueue]. unfold mcb_enqueue, push_deferred.
   eapply sim_bind; [apply (sim_get val rn (fun a rn1 i1 => a = rn /\ rn1 = rn /\ i1 = [])); auto|].
   cbn beta. intros a rn1 i1 (-> & -> & ->). unfold push_msg. apply sim_modify.
   pose proof (okmL_msgq _ _ Hok) as Hq. cbn [fst] in Hq. rewrite Hq.
   split; [|split; [destruct rn; reflexivity | split; [reflexivity | apply abs_set_msgq]]].
-  split; [|split; [destruct rn; exact Hp | destruct rn; exact Har]].
-  set (X := pool_of rn pend ++ [QEv e 0 (wrap_mp11 (curseq rn - 1)) false]).
-  assert (E : pool_of (set_msgq rn X) (pend ++ [e]) = X) by (unfold X, pool_of; rewrite map_app; destruct rn; reflexivity).
+  split; [|split; [exact Hmk | split; [destruct rn; exact Hp | destruct rn; exact Har]]].
+  set (X := (mhead mk ++ pool_of rn pend) ++ [QEv e 0 (wrap_mp11 (curseq rn - 1)) false]).
+  assert (E : mhead mk ++ pool_of (set_msgq rn X) (pend ++ [e]) = X)
+    by (unfold X, pool_of; rewrite map_app, app_assoc; destruct rn; reflexivity).
   rewrite E. eapply okmL_set_msgq. exact Hok.
 Qed.
 
-Theorem mp11_stop_q : forall mc, core mc -> forall pend fuel rn, quietm pend mc rn -> running rn = true ->
+Theorem mp11_stop_q : forall mc, core mc -> forall mk pend fuel rn, quietm2 mk pend mc rn -> running rn = true ->
   sim val (co_stop (build cf parents false mc) fuel) rn
-      (fun _ rn' items => quietm pend mc rn' /\ running rn' = false /\ (items, abs rn') = sp_stop mc (abs rn)).
+      (fun _ rn' items => quietm2 mk pend mc rn' /\ running rn' = false /\ (items, abs rn') = sp_stop mc (abs rn)).
 Proof.
-  intros mc Hcore pend fuel rn (HokL & Hp & Har) Hrun. pose proof (mkids_hch mc Hcore) as Hch. specialize (Har Hrun).
+  intros mc Hcore mk pend fuel rn (HokL & Hmk & Hp & Har) Hrun. pose proof (mkids_hch mc Hcore) as Hch. specialize (Har Hrun).
   rewrite build_mp11. cbn [mp11_ops co_stop]. unfold mstop.
   eapply sim_bind; [apply (sim_get val rn (fun a rn1 i1 => a = rn /\ rn1 = rn /\ i1 = [])); auto|].
   cbn beta. intros a rn1 i1 (-> & -> & ->). rewrite Hrun. unfold mon_exit_pre.
-  set (ev := Evt EV_EXIT 0).
-  eapply sim_bind with (P := fun _ rn1 i1 => okmLq (pool_of rn pend, Some (curseq rn)) mc rn1 /\ processing rn1 = false /\ running rn1 = true /\
+  set (ev := Evt EV_EXIT 0). set (L := mhead mk ++ pool_of rn pend) in *.
+  eapply sim_bind with (P := fun _ rn1 i1 => okmLq (L, Some (curseq rn)) mc rn1 /\ processing rn1 = false /\ running rn1 = true /\
                                               (i1, abs rn1) = sp_exit mc ev (abs rn)).
   { eapply sim_bind; [apply (sim_get val rn (fun a rn1 i1 => a = rn /\ rn1 = rn /\ i1 = [])); auto|].
     cbn beta. intros a rn1 i1 (-> & -> & ->). rewrite Hrun.
     eapply sim_conseq.
-    { eapply Lm_exit_states with (items0 := []) (q := (pool_of rn pend, Some (curseq rn))); eauto.
+    { eapply Lm_exit_states with (items0 := []) (q := (L, Some (curseq rn))); eauto.
       - apply okmL_know. exact HokL.
       - intros s Hs. apply In_act_run; assumption. }
     cbn beta. intros u kn' items (H1 & H2 & H3 & H4 & H5 & H6). rewrite !app_nil_r in *.
     split; [exact H1|]. split; [congruence|]. split; [congruence|].
     rewrite H6. erewrite sp_exit_unfold by eauto.
     rewrite (fold_whole (sp_exit_state (sp_exit_subs mc) ev) (sp_exit_state_act _ ev) (abs rn) (m_nreg mc)); [rewrite abs_act; reflexivity|].
-    rewrite abs_act. destruct HokL as (_ & L & _). exact L. }
+    rewrite abs_act. destruct HokL as (_ & Lh & _). exact Lh. }
   cbn beta. intros u1 rn1 i1 (Hok1 & Hp1 & Hr1 & E1).
   eapply sim_bind; [eapply sim_mcb|]. cbn beta. intros u2 rn2 i2 (-> & ->).
   unfold mon_exit_post.
@@ -1387,22 +1518,22 @@ Proof.
   assert (E3 : abs rn3 = sp_post_exit mc (abs rn1)).
   { unfold rn3, sp_post_exit. destruct (m_hist mc); [reflexivity | |]; rewrite abs_set_hist, abs_act; reflexivity. }
   assert (Hc3 : curseq rn3 = curseq rn) by (unfold rn3; rewrite <- (okmL_seq _ _ Hok1); destruct (m_hist mc); destruct rn1; reflexivity).
-  assert (Hok3 : okmLq (pool_of rn pend, None) mc rn3).
+  assert (Hok3 : okmLq (L, None) mc rn3).
   { apply okmL_forget in Hok1. unfold rn3. destruct Hok1 as ((Hq & _) & La & Lh & Hk).
     destruct (m_hist mc); unfold okmLq, seq_is; destruct rn1; cbn in *; auto. }
   split; [|split; [destruct rn3; reflexivity|]].
-  - split; [|split; [unfold rn3; destruct (m_hist mc); destruct rn1; exact Hp1 | destruct rn3; cbn; discriminate]].
+  - split; [|split; [exact Hmk | split; [unfold rn3; destruct (m_hist mc); destruct rn1; exact Hp1 | destruct rn3; cbn; discriminate]]].
     replace (pool_of (set_running rn3 false) pend) with (pool_of rn pend) by (unfold pool_of; rewrite <- Hc3; destruct rn3; reflexivity).
     apply okmL_set_running. exact Hok3.
   - unfold sp_stop. fold ev. rewrite <- E1. rewrite !app_nil_l. cbn [app]. rewrite ?app_nil_r. rewrite abs_set_running, abs_act, E3. reflexivity.
 Qed.
 
 (* start() of a stopped machine without history of its own: the pool is emptied *)
-Theorem mp11_start_q : forall mc, core mc -> m_hist mc = HNone -> forall pend fuel rn, quietm pend mc rn -> running rn = false -> 1 <= fuel ->
+Theorem mp11_start_q : forall mc, core mc -> m_hist mc = HNone -> forall mk pend fuel rn, quietm2 mk pend mc rn -> running rn = false -> 1 <= fuel ->
   sim val (co_start (build cf parents false mc) fuel) rn
       (fun _ rn' items => okm mc rn' /\ running rn' = true /\ (items, abs rn') = sp_start_obs (act rn) mc (abs rn)).
 Proof.
-  intros mc Hcore Hh pend fuel rn (HokL & Hp & Har) Hnr Hf.
+  intros mc Hcore Hh mk pend fuel rn (HokL & Hmk & Hp & Har) Hnr Hf.
   assert (Hok0 : okm mc (set_msgq rn [])).
   { apply okm_unfold. split; [eapply okmL_set_msgq; exact HokL|]. split; [destruct rn; exact Hp|].
     intros Hr. exfalso. destruct rn; cbn in *; congruence. }
